@@ -75,6 +75,14 @@ def check_sizeof_def(ctx, fi, cls, rule="C05.R1"):
     return len(verdict)
 
 
+def default_probe(ctx, rule):
+    fi, paths = own_method_paths(ctx, "Construct", "_actualsize")
+    p = paths[0]
+    subs = p.of("SUB")
+    ok = len(paths) == 1 and len(subs) == 1 and subs[0]["m"] == "_sizeof" and subs[0]["target"] == SELF and subs[0]["ctx"] == CTX and subs[0]["path"] == PATH and p.retval == subs[0]["res"]
+    ctx.ob(rule, fi, ok, "the default _actualsize delegates to _sizeof(context, path)", key="default actualsize")
+
+
 def probe_specificity(ctx, rule):
     M = ctx.model
     # the size probe the lazy classes use is never less specific than the class's own size: the _actualsize a class resolves to is its own,
@@ -143,7 +151,10 @@ def run(ctx):
     ctx.extra["sizeof_definitions"] = n
     if n < 45:
         ctx.error("C05.R1: only %d _sizeof/_actualsize definitions found, floor 45" % n)
-    ctx.floor("C05.R1", 60)
+    # a size is computed from the context of the call, every time: no _sizeof / _actualsize remembers anything on the object (shared with C17.R1)
+    from . import C17 as _C17
+    _C17.stateless_methods(ctx, "C05.R1", ("_sizeof", "_actualsize"))
+    ctx.floor("C05.R1", 60 + 45)
 
     # ---------------------------------------------------------------- R3
     n3 = 0
@@ -167,11 +178,7 @@ def run(ctx):
     ctx.floor("C05.R3", 10)
 
     # ---------------------------------------------------------------- R4
-    fi, paths = own_method_paths(ctx, "Construct", "_actualsize")
-    p = paths[0]
-    subs = p.of("SUB")
-    ok = len(paths) == 1 and len(subs) == 1 and subs[0]["m"] == "_sizeof" and subs[0]["target"] == SELF and subs[0]["ctx"] == CTX and subs[0]["path"] == PATH and p.retval == subs[0]["res"]
-    ctx.ob("C05.R4", fi, ok, "the default _actualsize delegates to _sizeof(context, path)", key="default actualsize")
+    default_probe(ctx, "C05.R4")
     fi, paths = own_method_paths(ctx, "Construct", "_sizeof")
     ok = len(paths) == 1 and paths[0].outcome[0] == "raise" and paths[0].outcome[1].get("cls") == "SizeofError" and paths[0].outcome[1].get("path") == PATH
     ctx.ob("C05.R4", fi, ok, "a construct that does not define _sizeof refuses with SizeofError(path)", key="default sizeof")
